@@ -70,7 +70,7 @@ type BundlePart struct {
 
 // storeBundle serializes the Bundle of a BundleItem/BundlePart to the disk.
 func (bp BundlePart) storeBundle(b bpv7.Bundle) error {
-	if f, err := os.OpenFile(bp.Filename, os.O_WRONLY|os.O_CREATE, 0600); err != nil {
+	if f, err := os.OpenFile(bp.Filename, os.O_WRONLY|os.O_CREATE|os.O_TRUNC, 0600); err != nil {
 		return err
 	} else {
 		return b.WriteBundle(f)
